@@ -41,6 +41,11 @@ func runHistory(c *mc.Ctx) {
 	for i, n := range dstLens {
 		dsts[i] = mc.Bytes(c.Seed, "dst", n, n) // the same bytes the other sub-spaces use
 	}
+	// a second DST of each length with different bytes (indices 5..9): a memo keyed by the length, or by a slice that
+	// aliases a buffer the caller reuses, cannot tell it from the first
+	for _, n := range dstLens {
+		dsts = append(dsts, mc.Bytes(c.Seed, "dst-alt", n, n))
+	}
 	msgs := [][]byte{mc.Bytes(c.Seed, "msg", 33, 33), {}, mc.Bytes(c.Seed, "msg", 129, 129)}
 	long := []int{2, 3, 4} // indices of the over-long DSTs
 	if !c.Thorough {
@@ -106,6 +111,16 @@ func runHistory(c *mc.Ctx) {
 		aba(step{x, 4, 0, 0}, step{x, 0, 0, 0})
 		aba(step{x, 2, 0, 0}, step{x, 2, 2, 0})
 	}
+	// (5) same function, message and DST LENGTH, different DST bytes
+	for xi := range ops {
+		for _, d := range allD {
+			n := 48
+			if !ops[xi].expand {
+				n = 0
+			}
+			aba(step{xi, d, 0, n}, step{xi, d + 5, 0, n})
+		}
+	}
 	c.Rep.Extra["histories"] = len(hist)
 
 	// reference results, memoised (single goroutine)
@@ -119,9 +134,25 @@ func runHistory(c *mc.Ctx) {
 		memo[k] = v
 		return v
 	}
-	seq(c, "history", len(hist), func(w *mc.W, i int) {
-		h := hist[i]
+	// every history runs twice: with fresh copies of the inputs for every call (only the library's own state links the
+	// steps), and with the DST and the message of every step handed over in the SAME two caller-owned buffers, which the
+	// next step overwrites (a library that keeps a slice it was given then compares the buffer with itself)
+	seq(c, "history", 2*len(hist), func(w *mc.W, i int) {
+		h := hist[i/2]
+		reuse := i%2 == 1
+		dstBuf, msgBuf := make([]byte, 0, 1100), make([]byte, 0, 256)
+		put := func(buf *[]byte, src []byte) []byte {
+			full := (*buf)[:cap(*buf)]
+			for j := range full {
+				full[j] = 0xee
+			}
+			*buf = append((*buf)[:0], src...)
+			return *buf
+		}
 		desc := ""
+		if reuse {
+			desc = "(inputs in reused caller buffers) "
+		}
 		for k, s := range h {
 			desc += fmt.Sprintf("%d: %s(dst[%d], msg[%d], len=%d); ", k+1, ops[s.op].name, len(dsts[s.dst]), len(msgs[s.msg]), s.n)
 		}
@@ -129,6 +160,8 @@ func runHistory(c *mc.Ctx) {
 			o := ops[s.op]
 			class := "history/same-dst-other-function"
 			switch {
+			case h[0].op == h[1].op && h[0].dst != h[1].dst && len(dsts[h[0].dst]) == len(dsts[h[1].dst]):
+				class = "history/same-function-other-dst-of-the-same-length"
 			case h[0].op == h[1].op && h[0].dst != h[1].dst:
 				class = "history/same-function-other-dst"
 			case h[0].op == h[1].op && h[0].n != h[1].n:
@@ -144,8 +177,11 @@ func runHistory(c *mc.Ctx) {
 			if o.expand {
 				out = fill(s.n, 0xa5)
 			}
-			// fresh copies of the inputs for every call: only the library's own state links the steps
-			got, err := o.call(out, append([]byte{}, dsts[s.dst]...), append([]byte{}, msgs[s.msg]...))
+			dArg, mArg := append([]byte{}, dsts[s.dst]...), append([]byte{}, msgs[s.msg]...)
+			if reuse {
+				dArg, mArg = put(&dstBuf, dsts[s.dst]), put(&msgBuf, msgs[s.msg])
+			}
+			got, err := o.call(out, dArg, mArg)
 			if wv := want(s); err != nil || !bytes.Equal(got, wv) {
 				w.Fail("h2c/call-history", fmt.Sprintf("history [%s] step %d: got (%s, %v), RFC 9380 gives %s - the result of a call depends on the calls made before it", desc, k+1, short(got), err, short(wv)),
 					map[string]string{"history": desc, "failing_step": fmt.Sprint(k + 1), "dst": fmt.Sprintf("%x", dsts[s.dst]), "msg": fmt.Sprintf("%x", msgs[s.msg])})
